@@ -25,6 +25,7 @@ composition of the two across peers is argued in DESIGN.md, not machine-checked.
 DESIGN.md §7) is NOT proved: on that level the property is decided by the monitor on
 implementation traces plus trace acceptance of the model (`_partial` in the sense of DESIGN.md).
 -/
+import GgrsModel.Model.Inventory
 import GgrsModel.Properties.C11
 import GgrsModel.Properties.C03
 import GgrsModel.Properties.C04
